@@ -13,8 +13,12 @@ sequences of /repo/examples/*.hid and generated ones re-rendered with seeded whi
 comments between tokens - same kinds and values required (TLA+: SameAsBase), spans re-validated; instruction
 streams of the examples before/after re-layout (TLA+: InstructionStreamsEqual on digests).
 
-Also run: spec/Lexer.cfg (TypeOK, SpanExact, ReaderAgrees, CursorForward, Terminates) on the machine itself
-over the exhaustive inputs.
+Three kinds of TLC run per check: the trace check on all cases (several batches in the thorough tier); the same
+on a small sample of every family with LexerData!CaseLogActions = TRUE, which prints every step so that the
+actions of the machine can be counted (an action never taken is a machinery failure); and spec/Lexer.cfg
+(TypeOK, SpanExact, ReaderAgrees, CursorForward, Terminates) on the machine itself.  The number of judged cases is
+measured as TLC's generated - distinct states (each verdict state has exactly one successor, itself) and must
+equal the number of cases written.
 
   /venv/bin/python -m hv.check C12 --tier quick
   /venv/bin/python -m hv.checks.c12 --selftest
@@ -25,16 +29,20 @@ from .. import lexer_record as R
 from .. import lexer_families as F
 
 PROP = 'C12'
-ACTIONS = ['TStart', 'TSkipLinebreak', 'TSkipToToken', 'TSkipToMurky', 'TAtEnd', 'TReadSymbol', 'TReadIdentOrKeyword',
-           'TReadInt', 'TReadString', 'TReadChar', 'TNoReader', 'TVerdict']
+ACTIONS = ['SkipLinebreak', 'SkipToToken', 'SkipToMurky', 'AtEnd', 'ReadSymbol', 'ReadIdentOrKeyword',
+           'ReadInt', 'ReadString', 'ReadChar', 'NoReader']
 BLOCK = 256                # LexerTrace!BlockSize
-MAX_REPORTED = 60          # violations turned into replay files per run
+MAX_REPORTED = 60          # violations turned into replay files per run ...
+PER_CLASS = 4              # ... and per classifier (the evidence holds the full count)
 
 SIZES = {
     # exhaustive length, random strings, fragment strings, layout renderings per example / per generated
     # sequence, generated sequences, instruction-stream renderings per example
-    'quick':    dict(exh=3, rnd=6000, frag=4000, ex_render=2, gen_seqs=120, gen_render=3, instr=1, pairs=False),
-    'thorough': dict(exh=4, rnd=60000, frag=40000, ex_render=8, gen_seqs=1500, gen_render=4, instr=4, pairs=True),
+    'selftest': dict(exh=2, rnd=900, frag=600, ex_render=1, gen_seqs=30, gen_render=2, instr=1, pairs=False,
+                     examples=3),                # the reduced size hv.checks.c12_selftest runs per mutant
+    'quick':    dict(exh=3, rnd=4500, frag=3000, ex_render=2, gen_seqs=120, gen_render=3, instr=1, pairs=False),
+    'thorough': dict(exh=4, rnd=45000, frag=30000, ex_render=6, gen_seqs=1200, gen_render=4, instr=3, pairs=True,
+                     exh5_sample=240000),        # seeded sample of the 5,153,632 strings of length 5
 }
 
 
@@ -90,6 +98,15 @@ def build(tier, seed, only=None):
                     cur = R.Batch()
                     extra.append(cur)
                 add(cur, 'exhaustive', ''.join(tup))
+        if z.get('exh5_sample'):
+            seen = set()
+            while len(seen) < z['exh5_sample']:
+                seen.add(''.join(rng.choice(F.ALPHA) for _ in range(5)))
+            for i, s5 in enumerate(sorted(seen)):
+                if i % 80000 == 0:
+                    cur = R.Batch()
+                    extra.append(cur)
+                add(cur, 'length5', s5)
     if want('random'):
         for s in F.random_strings(rng, z['rnd'], 4, 9):
             add(main, 'random', s)
@@ -112,7 +129,8 @@ def build(tier, seed, only=None):
     digests = []
     if want('layout'):
         groups = []
-        for name, src in F.example_sources():
+        examples = sorted(F.example_sources(), key=lambda e: len(e[1]))[:z.get('examples')]
+        for name, src in examples:
             base = add(main, 'layout', src)
             texts, glued = F.split_tokens(src, main.meta[base - 1][3])
             if texts is None or main.meta[base - 1][2] != 0:
@@ -139,14 +157,14 @@ def build(tier, seed, only=None):
 
 
 # ------------------------------------------------------------------------------------------------ TLC
-def run_trace(batch, digests, coverage, timeout, corrupt=None, workers=None):
+def run_trace(batch, digests, log_actions, timeout, corrupt=None, workers=None, heap='6g'):
     """-> dict(result=tlc.Result, mismatches=[(case, what, ntok, spec, rec)], dontcare=set, ...)"""
     d = common.scratch('c12_')
     try:
         if corrupt:
             corrupt(batch)
-        batch.write(d, digests)
-        r = tlc.run(d, 'C12Run', deadlock=True, coverage=coverage, timeout=timeout, workers=workers)
+        batch.write(d, digests, log_actions=log_actions)
+        r = tlc.run(d, 'C12Run', deadlock=True, timeout=timeout, workers=workers, heap=heap)
     finally:
         common.rm(d)
     n = len(batch.cases)
@@ -172,21 +190,20 @@ def run_trace(batch, digests, coverage, timeout, corrupt=None, workers=None):
     # (inputs are disjoint chains and the cursor only moves forward): generated - distinct = verdicts
     if r.generated - r.distinct != n:
         raise common.Machinery('verdicts reached: %d of %d cases' % (r.generated - r.distinct, n))
-    missing = []
-    if coverage:
-        missing = [a for a in ACTIONS if r.coverage.get(a, (0, 0))[1] == 0]
-        for a in ('TStart', 'TVerdict'):          # every case was started and every case reached a verdict
-            if a not in missing and r.coverage[a][1] != n:
-                raise common.Machinery('%s taken %d times for %d cases' % (a, r.coverage[a][1], n))
-    return dict(result=r, mismatches=mism, dontcare=dc, instr=instr, missing=missing, n=n)
+    actions = {}
+    if log_actions:
+        for a in re.findall(r'<<"HA", "(\w+)">>', r.out):
+            actions[a] = actions.get(a, 0) + 1
+    missing = [a for a in ACTIONS if not actions.get(a)] if log_actions else []
+    return dict(result=r, mismatches=mism, dontcare=dc, instr=instr, missing=missing, n=n, actions=actions)
 
 
-def run_machine_check(batch, timeout):
+def run_machine_check(batch, timeout, workers=None):
     """spec/Lexer.cfg on the machine itself over the same inputs (recordings unused)."""
     d = common.scratch('c12mc_')
     try:
         batch.write(d, (), root='C12MC', extends='Lexer', cfg='Lexer.cfg')
-        r = tlc.run(d, 'C12MC', deadlock=True, timeout=timeout)
+        r = tlc.run(d, 'C12MC', deadlock=True, timeout=timeout, workers=workers, heap='3g')
     finally:
         common.rm(d)
     if r.timed_out:
@@ -212,8 +229,8 @@ def violation_of(batch, case, what, ntok, spec, rec):
 
 # ------------------------------------------------------------------------------------------------ entry points
 def coverage_sample(batch, seed, per_family=220, max_len=400):
-    """a small batch (TLC's -coverage walks the whole data module once per action, so it only pays on a
-    small one) with cases of every family, to count how often each action of the machine is taken"""
+    """a small batch with cases of every family, run with CaseLogActions = TRUE to count how often each
+    action of the machine is taken (one printed line per step: only sensible on a small batch)"""
     rng = random.Random(seed + 1)
     by = {}
     for i, m in enumerate(batch.meta):
@@ -252,14 +269,14 @@ def main(tier, seed, only=None, corrupt=None):
 
     threads = []
     small = coverage_sample(batch, seed)
-    threads.append(bg('cov', lambda: run_trace(small, (), coverage=True, timeout=tmo, workers=4)))
+    threads.append(bg('cov', lambda: run_trace(small, (), True, timeout=tmo, workers=4, heap='2g')))
     if only is None:
-        exh = R.Batch()
+        exh = R.Batch()                          # inputs for the machine's own properties (spec/Lexer.cfg)
         for m in batch.meta:
-            if m[0] in ('exhaustive', 'ints', 'words'):
+            if (m[0] == 'exhaustive' and (tier != 'quick' or len(m[1]) <= 2)) or m[0] in ('ints', 'escapes'):
                 exh.add(m[0], m[1], (m[2], m[3], m[4]))
-        threads.append(bg('mc', lambda: run_machine_check(exh, timeout=tmo)))
-    res = run_trace(batch, digests, coverage=False, timeout=tmo, corrupt=corrupt)
+        threads.append(bg('mc', lambda: run_machine_check(exh, timeout=tmo, workers=6)))
+    res = run_trace(batch, digests, False, timeout=tmo, corrupt=corrupt)
     for th in threads:
         th.join()
     for name, (st, val) in side.items():
@@ -270,9 +287,10 @@ def main(tier, seed, only=None, corrupt=None):
 
     runs = [(batch, res)]
     for b in extra:
-        runs.append((b, run_trace(b, (), coverage=False, timeout=tmo)))
+        runs.append((b, run_trace(b, (), False, timeout=tmo)))
 
     violations = []
+    per_class = {}
     states = trans = ncases = ndc = 0
     wall = 0.0
     for b, rr in runs:
@@ -281,9 +299,12 @@ def main(tier, seed, only=None, corrupt=None):
         wall += rr['result'].wall
         ncases += rr['n']
         ndc += len(rr['dontcare'])
-        for (case, what, ntok, spec, rec) in rr['mismatches']:
-            if len(violations) < MAX_REPORTED:
-                violations.append(violation_of(b, case, what, ntok, spec, rec))
+        for (case, what, ntok, spec, rec) in sorted(rr['mismatches'], key=lambda m: m[0]):
+            v = violation_of(b, case, what, ntok, spec, rec)
+            k = repr(sorted(v.classifier.items()))
+            per_class[k] = per_class.get(k, 0) + 1
+            if per_class[k] <= PER_CLASS and len(violations) < MAX_REPORTED:
+                violations.append(v)
         for p in rr['instr']:
             violations.append(common.Violation(PROP, 'instruction stream of %s changes with the layout' % p[5],
                                                {'family': 'instructions', 'program': str(p[5]).split('#')[0]},
@@ -320,6 +341,7 @@ def main(tier, seed, only=None, corrupt=None):
         'states': states, 'transitions': trans,
         'traces_validated_against_impl': compared,
         'cases': ncases, 'dontcare_cases': ndc, 'mismatching_cases': nmism,
+        'mismatch_classes': per_class,
         'families': counts,
         'exhaustive': 'all %d-character-alphabet strings of length <= %d' % (len(F.ALPHA), SIZES[tier]['exh']),
         'alphabet': show(F.ALPHA),
@@ -327,7 +349,7 @@ def main(tier, seed, only=None, corrupt=None):
         'distinct_token_values': len(batch.vals),
         'rule': 'spec/Lexer.tla L1-L13, dontcare D1-D2; spec/LexerTrace.tla Judge, SameAsBase, '
                 'InstructionStreamsEqual; spec/Lexer.cfg TypeOK SpanExact ReaderAgrees CursorForward Terminates',
-        'actions_in_coverage_sample': {a: cov_run['result'].coverage.get(a, (0, 0))[1] for a in ACTIONS},
+        'actions_in_coverage_sample': {a: cov_run['actions'].get(a, 0) for a in ACTIONS},
         'coverage_sample_cases': cov_run['n'],
         'machine_check': None if mc is None else {'states': mc.distinct, 'ok': mc.ok, 'wall_s': round(mc.wall, 1)},
         'record_wall_s': round(t_rec, 1), 'tlc_wall_s': round(wall, 1), 'tlc_runs': len(runs) + len(side),
@@ -347,7 +369,7 @@ def replay(path):
     hidc_api.load()
     b = R.Batch()
     b.add('replay', src, R.record(src))
-    rr = run_trace(b, (), coverage=False, timeout=120, workers=2)
+    rr = run_trace(b, (), False, timeout=120, workers=2, heap='1g')
     print('input   %r' % src)
     print('lexer   end=%d tokens=%s exception=%s' % (b.meta[0][2], b.meta[0][3], b.meta[0][4]))
     for m in rr['mismatches']:
